@@ -9,6 +9,7 @@ open BeyondVerif BeyondVerif.Drv
 
 /-- `sgp4fields <us>` → `Y M D h m secUs <bits of float("SS.ffffff")>`: the arguments `Sgp4.propagate` hands to the
 library for the UTC datetime `us` microseconds after 0001-01-01 (rejects negative / non-numeric input)
+`sgp4utc <tai_us> <tai_minus_utc_us>` → the same tuple for the instant `tai_us` (TAI clock) whose day carries that TAI − UTC (`Wrapper.runInstant`)
 `sgp4beta <i0 Ω0 e0 ω0 M0 n0 bstar tdiff>` → six floats: `Sgp4Beta` (setter + propagate), tdiff in minutes
 `sgp4init <i0 Ω0 e0 ω0 M0 n0 bstar>` → the twenty cached `_init` values
 `natseq b<inst>:<orbit> … p<inst> …` → per `p`: `<orbit whose elements are used>:<orbit whose cached constants are used>` (`Sgp4Inst.runSeq` with the storage read from the source)
@@ -22,6 +23,13 @@ def handle : List String → Option String
       let f := Sgp4Wrap.utcFields n
       joinWith " " [toString f.year, toString f.month, toString f.day, toString f.hour, toString f.minute, toString f.secUs, fToStr (Sgp4Wrap.secFloat f)]
     | none => "value-error"
+  | ["sgp4utc", tai, off] => some <|
+    match tai.toInt?, off.toInt? with
+    | some t, some o =>
+      if Sgp4Wrap.utcReading t o < 0 then "value-error" else
+      let f := Sgp4Wrap.utcFields (Sgp4Wrap.utcReading t o).toNat
+      joinWith " " [toString f.year, toString f.month, toString f.day, toString f.hour, toString f.minute, toString f.secUs, fToStr (Sgp4Wrap.secFloat f)]
+    | _, _ => "value-error"
   | "sgp4beta" :: rest => some <|
     match takeFloats 8 rest with
     | some ([i0, raan, e0, argp, m0, n0, bstar, tdiff], []) => fsToStr (F.sgp4Beta i0 raan e0 argp m0 n0 bstar tdiff)
